@@ -3,11 +3,17 @@ package main
 // C02 — rules run in awk order over every input shape (DESIGN §4 C02).
 
 import (
+	"bytes"
 	"encoding/json"
 	"fmt"
 	"math/rand/v2"
+	"os"
+	"os/exec"
+	"path/filepath"
 	"strconv"
 	"strings"
+	"syscall"
+	"time"
 )
 
 var c02Kinds = []string{"BEGIN", "END", "BEGINFILE", "ENDFILE", "pattern"}
@@ -167,6 +173,19 @@ func c02Random(rng *rand.Rand) (*c02Config, string, bool) {
 	for s := 0; s < nsel; s++ {
 		cfg.selectors = append(cfg.selectors, selPool[rng.IntN(len(selPool))])
 	}
+	if nsel >= 2 && rng.IntN(3) == 0 {
+		// a selector that prints, fails or exits when it is evaluated: that happens when its turn comes, after the
+		// rules of the selectors before it have run for this value
+		eff := []Expr{
+			CallE(V("printf"), S("selector evaluated\n")),
+			&MatchExpr{Subj: N("1"), Cases: []*MatchCase{{Pats: []Expr{V("w")}, Block: Blk(Pr(S("selector block"), V("$")))}}},
+			Idx(Arr(N("1")), &Unary{Op: "-", X: N("5")}),
+			CallE(Mem(V("$"), "nosuchfn")),
+			&MatchExpr{Subj: N("1"), Cases: []*MatchCase{{Pats: []Expr{V("w")}, Block: Blk(&Exit{})}}},
+		}
+		cfg.selectors[1+rng.IntN(nsel-1)] = eff[rng.IntN(len(eff))]
+		shape += "+effect-selector"
+	}
 	reassign := rng.IntN(8) == 0
 	if reassign {
 		allArr = false
@@ -299,7 +318,81 @@ func c02Cases(tier string) int {
 	return c02EnumCount + 100000
 }
 
+// c02Pipes: the binary with a named pipe that never gets a writer among its file operands. BEGIN rules run before
+// any input, files are taken in the order given, and exit ends the run at once: none of that waits for the pipe.
+// The verdict is taken from the state of the process (exited, or every thread asleep without using CPU time), not
+// from a deadline.
+func c02Pipes(c *Case) {
+	dir := filepath.Join(c.env.Scratch, "c02p")
+	os.MkdirAll(dir, 0o755)
+	defer os.RemoveAll(dir)
+	os.WriteFile(filepath.Join(dir, "a.json"), []byte("[1, 2, 3]"), 0o644)
+	fifo := filepath.Join(dir, "never.fifo")
+	if syscall.Mkfifo(fifo, 0o600) != nil {
+		c.Inconclusive("fifo-setup-failed")
+		return
+	}
+	for _, t := range []struct {
+		name string
+		args []string
+		want string
+	}{
+		{"exit in BEGIN, the only operand a pipe without writer", []string{"--", "BEGIN { print 'begin'; exit } { print 'rule' } END { print 'end' }", "never.fifo"}, "begin\n"},
+		{"exit in a rule of the first file, then a pipe without writer", []string{"--", "BEGIN { print 'begin' } { print $; if ($ == 2) exit } END { print 'end' }", "a.json", "never.fifo"}, "begin\n1\n2\n"},
+		{"exit in ENDFILE of the first file, then a pipe without writer", []string{"--", "{ n++ } ENDFILE { print $file, n; exit }", "a.json", "never.fifo"}, "a.json 3\n"},
+		{"exit in BEGIN, a file and a pipe, with -r", []string{"-r", "$[0]", "--", "BEGIN { print 'begin'; exit }", "a.json", "never.fifo"}, "begin\n"},
+	} {
+		cmd := exec.Command(c.env.Jqawk, t.args...)
+		cmd.Dir = dir
+		cmd.Stdin = bytes.NewReader(nil)
+		var out, errb lockedBuf
+		cmd.Stdout, cmd.Stderr = &out, &errb
+		if cmd.Start() != nil {
+			c.Inconclusive("cli-start-failed")
+			continue
+		}
+		heartbeat()
+		done := make(chan error, 1)
+		go func() { done <- cmd.Wait() }()
+		exited, idle := false, false
+		for round := 0; round < 10 && !exited && !idle; round++ {
+			select {
+			case <-done:
+				exited = true
+			case <-time.After(200 * time.Millisecond):
+				idle = waitIdle(cmd.Process.Pid, 2*time.Second)
+			}
+		}
+		if !exited {
+			select {
+			case <-done:
+				exited = true
+			default:
+			}
+		}
+		c.NonTrivial("pipe:" + t.name)
+		c.Count("runs_with_a_pipe_that_has_no_writer")
+		switch {
+		case exited && cmd.ProcessState.ExitCode() == 0 && out.String() == t.want:
+			c.Held()
+		case exited:
+			c.Violation(fmt.Sprintf("%s: exit %d, stdout %q (want %q), stderr %q", t.name, cmd.ProcessState.ExitCode(), clip(out.String(), 80), t.want, clip(errb.String(), 80)), nil, map[string]any{"args": t.args})
+		case idle:
+			cmd.Process.Kill()
+			<-done
+			c.Violation(fmt.Sprintf("%s: the process sleeps (every thread asleep, no CPU time used) with stdout %q instead of ending with %q: it waits for input that the run never gets to", t.name, clip(out.String(), 80), t.want), nil, map[string]any{"args": t.args})
+		default:
+			cmd.Process.Kill()
+			<-done
+			c.Inconclusive("cli-neither-exited-nor-idle")
+		}
+	}
+}
+
 func c02Run(c *Case) {
+	if c.Idx == 0 {
+		c02Pipes(c)
+	}
 	var cfg *c02Config
 	var key string
 	nontrivial := true
@@ -327,7 +420,7 @@ func c02Run(c *Case) {
 		sels = append(sels, CanonExpr(s))
 	}
 	mod := RunModel(p, minputs, cfg.selectors, ModelOpts{TrackRules: true})
-	lib := RunLib(text, cfg.files, sels, RunOpts{TrackRules: true})
+	lib := RunLib(text, cfg.files, sels, RunOpts{TrackRules: true, WantRoot: len(cfg.files) == 1})
 	for k, v := range lib.RuleStarts {
 		c.CountN("impl_rule_starts:"+k, v)
 	}
@@ -346,6 +439,12 @@ func c02Run(c *Case) {
 			why = "stdout trace: " + d
 		} else if strings.Join(mod.RuleSeq, ",") != strings.Join(lib.RuleSeq, ",") {
 			why = fmt.Sprintf("rule activations differ: implementation %v, schedule model %v", clip(strings.Join(lib.RuleSeq, ","), 200), clip(strings.Join(mod.RuleSeq, ","), 200))
+		} else if len(cfg.files) == 1 && lib.Class == "ok" && mod.Root != nil {
+			// the run ended successfully, by exit in whatever rule or at the end: the root bound last is there for -o
+			c.Count("root_after_the_run_compared")
+			if w := rootWhy(mod, lib); w != "" {
+				why = "after the run: " + w
+			}
 		}
 	}
 	if nontrivial && len(mod.RuleSeq) >= 2 {
@@ -375,7 +474,7 @@ func c02Run(c *Case) {
 func init() {
 	register(&Prop{
 		ID: "C02", Level: "exploration",
-		Rule:          "enumerated: every sequence of 1-3 rule kinds (155) x {no action, next at rule i, exit at rule i} x 4 root shapes (array, object with array member, scalar, empty array) x {1,2} values x {0,2} selectors; sampled: 1-8 rules in random source order, 1-3 files x 0-3 values (9 root shapes, varied separators) x 0-3 selectors, patterns of every truth value, bodies printing tag/$file/$index/$, next/exit placed unconditionally and data-dependent, rules without body. Oracle: stdout trace and the sequence of rule activations (hook verifRule) vs the schedule model of DESIGN 3.7. Non-trivial = at least 2 rule activations (sampled: >= 2 kinds active and a pattern rule); distinct by configuration + program text.",
+		Rule:          "enumerated: every sequence of 1-3 rule kinds (155) x {no action, next at rule i, exit at rule i} x 4 root shapes (array, object with array member, scalar, empty array) x {1,2} values x {0,2} selectors; sampled: 1-8 rules in random source order, 1-3 files x 0-3 values (9 root shapes, varied separators) x 0-3 selectors, patterns of every truth value, bodies printing tag/$file/$index/$, next/exit placed unconditionally and data-dependent, rules without body. a third of the cases with >= 2 selectors get a selector that prints, fails or exits when evaluated (selectors are evaluated one by one, each when its turn comes). Oracle: stdout trace and the sequence of rule activations (hook verifRule) vs the schedule model of DESIGN 3.7; with one input file also the root left for -o after the run (exit in BEGINFILE included). 4 runs of the binary with a named pipe that never gets a writer among the operands: exit in BEGIN / in a rule or ENDFILE of an earlier file ends the run (verdict from the process state via /proc: exited, or asleep without using CPU). Non-trivial = at least 2 rule activations (sampled: >= 2 kinds active and a pattern rule); distinct by configuration + program text.",
 		NumCases:      c02Cases,
 		Run:           c02Run,
 		MinConclusive: func(tier string) int { return 20000 },
